@@ -79,6 +79,15 @@ constexpr int poison = -999;
 
 struct peek;
 
+// C05_THROWING_MOVE (binary C05t): the element's move constructor is potentially throwing, so a library site that says
+// std::move_if_noexcept (or otherwise chooses between copy and move by noexcept-ness) shows up as a copy.  That binary
+// only runs shapes with at most one element: with more, reallocation inside std::vector itself copies such elements.
+#ifdef C05_THROWING_MOVE
+constexpr bool throwing_move = true;
+#else
+constexpr bool throwing_move = false;
+#endif
+
 template <bool Copyable, int Tag>
 class tracked_t
 {
@@ -98,7 +107,7 @@ public:
         L().ram.push_back("copy-construction from moved-from object (id " + std::to_string(id_) + ")");
     }
   }
-  tracked_t(tracked_t &&_o) noexcept : id_(_o.id_), payload_(_o.payload_), moved_(_o.moved_)
+  tracked_t(tracked_t &&_o) noexcept(!throwing_move) : id_(_o.id_), payload_(_o.payload_), moved_(_o.moved_)
   {
     ++L().live;
     if (L().armed)
@@ -190,7 +199,7 @@ using tracked_mo_c = tracked_t<false, 2>;
 
 static_assert(std::is_copy_constructible_v<tracked> && std::is_copy_assignable_v<tracked>);
 static_assert(!std::is_copy_constructible_v<tracked_mo> && !std::is_copy_assignable_v<tracked_mo>);
-static_assert(std::is_nothrow_move_constructible_v<tracked_mo> && std::is_nothrow_move_assignable_v<tracked_mo>);
+static_assert(std::is_nothrow_move_constructible_v<tracked_mo> == !throwing_move && std::is_nothrow_move_assignable_v<tracked_mo>);
 
 template <class T> struct is_tracked : std::false_type
 {
@@ -489,6 +498,14 @@ public:
       auto const it = rvalue_origin_.find(kv.first);
       if (it == rvalue_origin_.end())
         continue;
+      // throwing-move binary: once a second tracked element exists in the case, std::vector's own reallocation
+      // (move_if_noexcept) legitimately copies such elements; only cases with a single element are judged there
+      if (throwing_move && L().next_id - 1 > 1)
+      {
+        if (s.copy_ctor + s.copy_assign != 0)
+          vrt::count("info:throwing_move:copy_in_multi_element_case", 1);
+      }
+      else
       VRT_CHECK(s.copy_ctor + s.copy_assign == 0, op_ + ":" + it->second + ":rvalue_element_copied",
                 "element id %d of rvalue argument '%s' was copied by the library: %d copy-ctor, %d copy-assign (%d move-ctor, %d "
                 "move-assign)",
@@ -657,7 +674,7 @@ template <class T = tracked> std::vector<T> make_vec(int const _n, int const _ba
 }
 
 // element counts of the shapes: empty / one / three (thorough adds two and five)
-inline std::vector<int> sizes() { return vrt::thorough() ? std::vector<int>{0, 1, 2, 3, 5} : std::vector<int>{0, 1, 3}; }
+inline std::vector<int> sizes() { if (throwing_move) return std::vector<int>{0, 1}; return vrt::thorough() ? std::vector<int>{0, 1, 2, 3, 5} : std::vector<int>{0, 1, 3}; }
 
 void register_algorithm_container_shards();
 void register_grid_tree_shards();
